@@ -223,21 +223,41 @@ def rule_tables(facts, rep):
 def rule_adapted(facts, rep):
     b = facts.body("anstream", "anstream::_macros::to_adapted_string")
     rep.fn(b["path"])
-    st = hir.stmts_of(b["hir"])
-    lets = [(s["pat"].get("name"), hir.simp(s["init"])) for s in st if s.get("k") == "let"]
-    names = [n for n, _ in lets]
-    d = dict((n, i) for n, i in lets if n)
-    ok = hir.is_call(lets[0][1], A + "choice") and hir.is_local(lets[0][1]["args"][0], "stream")
-    rep.check(ok, "adapted-string", b["path"], "1-choice-of-target-stream", "", loc(b))
-    news = [i for n, i in lets if hir.is_call(i, A + "new")]
-    ok = len(news) == 1 and hir.is_local(news[0]["args"][1], "choice") and hir.is_local(news[0]["args"][0], "buffer")
-    rep.check(ok, "adapted-string", b["path"], "2-AutoStream::new(Vec, choice)", "", loc(b))
+    # value flow, whatever is named by a temporary: new(Vec::new(), choice(stream)) -> one write_fmt("{display}") on it ->
+    # into_inner() of it -> from_utf8_lossy(..).into_owned() is the result
+    R = hir.Resolver(b["hir"])
+    O = hir.Origins(b["hir"])
+    pnames = [p.get("name") for p in b["params"]]
+    news = [n for n in hir.walk(b["hir"]) if hir.is_call(n, A + "new")]
+    ok1 = ok2 = False
+    sid = None
+    if len(news) == 1:
+        ch = R.res(hir.peel(news[0]["args"][1]))
+        ok1 = hir.is_call(ch, A + "choice") and hir.is_local(hir.peel(ch["args"][0]), "stream")
+        buf = R.res(hir.peel(news[0]["args"][0]))
+        ok2 = hir.is_call(buf, "alloc::vec::Vec::<T>::new", "Vec::<T>::new", "alloc::vec::Vec::<T>::with_capacity")
+        binds = [n for n in hir.walk(b["hir"]) if n.get("k") == "let" and n["pat"].get("k") == "pbind" and hir.simp(n.get("init")) is news[0]]
+        sid = binds[0]["pat"].get("id") if len(binds) == 1 else None
+    rep.check(ok1, "adapted-string", b["path"], "1-choice-of-target-stream", "", loc(b))
+    rep.check(ok2 and sid is not None, "adapted-string", b["path"], "2-AutoStream::new(Vec, choice)", "", loc(b))
+
+    def on_stream(e):
+        e = hir.peel(e)
+        return e.get("k") == "local" and e.get("id") == sid
     wf = [n for n in hir.walk(b["hir"]) if hir.is_call(n, WR + "write_fmt")]
-    ok = len(wf) == 1
+    ok = len(wf) == 1 and on_stream(wf[0]["args"][0])
     if ok:
         pieces, args = hir.fmt_template(wf[0]["args"][1])
         ok = pieces == [("arg", 0, "new_display")] and hir.is_local(args[0], "display")
-    rep.check(ok, "adapted-string", b["path"], "3-one-write_fmt-of-the-display", "", loc(b))
-    inn = [i for n, i in lets if hir.is_call(i, A + "into_inner")]
-    ok = len(inn) == 1 and hir.is_local(inn[0]["args"][0], "stream")
+    other_w = [n for n in hir.walk(b["hir"]) if n.get("k") == "call" and hir.callee_decl(n).startswith("std::io::Write::") and n not in wf]
+    rep.check(ok and not other_w, "adapted-string", b["path"], "3-one-write_fmt-of-the-display", "", loc(b))
+    inn = [n for n in hir.walk(b["hir"]) if hir.is_call(n, A + "into_inner")]
+    ok = len(inn) == 1 and on_stream(inn[0]["args"][0])
+    if ok:
+        tail = hir.simp(hir.stmts_of(b["hir"])[-1])
+        src, proj = O.of(tail)
+        ok = hir.is_call(src, "into_owned") and not proj
+        if ok:
+            lossy = hir.peel(R.res(hir.peel(src["args"][0])))
+            ok = hir.is_call(lossy, "from_utf8_lossy") and O.of(lossy["args"][0])[0] is inn[0]
     rep.check(ok, "adapted-string", b["path"], "4-into_inner-gives-the-bytes", "", loc(b))
